@@ -57,6 +57,7 @@ def run(ctx):
     check_duration_floor(ctx, model)
     check_entry_permissionless(ctx, model)
     check_manager_genesis(ctx, model)
+    check_hooks_carry_the_new_epoch(ctx, model)
     check_query_epoch(ctx, model)
     # ---------------- epoch manager -------------------------------------------------------
     p = "epoch_manager::commands::create_epoch"
@@ -381,3 +382,36 @@ def check_manager_genesis(ctx, model):
     exp = {"<": False, "=": True, ">": False}
     ctx.ob("C20-E9", "%s|genesis==start" % p, n > 0 and tab == exp,
            "EPOCH.save reachable for genesis_epoch vs start_epoch.start_time: %s; documented %s (tracked comparisons at %s)" % (tab, exp, blocks), v.where())
+
+
+def check_hooks_carry_the_new_epoch(ctx, model):
+    """E5 (payload): the epoch each hook is told about is the epoch that was just saved (the new one), not the value
+    loaded before the update: the provenance of EpochChangedHookMsg.current_epoch inside the prepare_hooks closure,
+    resolved to the enclosing function, equals the provenance of the value passed to EPOCH.save."""
+    from ..guards import resolve
+    p = "epoch_manager::commands::create_epoch"
+    v = ctx.view(p, "C20-E5")
+    if v is None:
+        return
+    saves = saves_of(v, "epoch_manager::state::EPOCH")
+    hooks = v.calls_to(r"^cw_controllers::Hooks::prepare_hooks$")
+    if not saves or not hooks:
+        ctx.missing("C20-E5", "EPOCH.save / prepare_hooks in create_epoch")
+        return
+    saved = set()
+    for sb, t in saves:
+        saved |= {(o.kind, o.a, o.b, tuple(o.proj)) for o in v.origins_of_operand(t["args"][2], at=v.at_term(sb))}
+    told = set()
+    for hb, ht in hooks:
+        for o in v.origins_of_operand(ht["args"][2], at=v.at_term(hb)):
+            if o.kind == "closure" and o.a in model.fnsrc:
+                cv = model.view(o.a)
+                chain = ((v.path, hb, "closure"),)
+                for b, i, s_ in cv.iter_stmts():
+                    rv = s_["rv"]
+                    if rv["r"] == "agg" and rv.get("adt", "").endswith("EpochChangedHookMsg"):
+                        f = dict(zip(rv["fields"], rv["ops"]))
+                        for x in resolve(model, chain, cv, cv.origins_of_operand(f["current_epoch"], at=(b, i))):
+                            told.add((x.kind, x.a, x.b, tuple(x.proj)))
+    ctx.ob("C20-E5", "%s|hooks-are-told-the-saved-epoch" % p, bool(told) and told == saved,
+           "hook payload epoch from %s; saved epoch from %s" % (sorted(map(str, told))[:4], sorted(map(str, saved))[:4]), v.where(hooks[0][0]))
